@@ -7,7 +7,8 @@ RULE = ("shard level (package index): 1-5 repositories (tenant id 1..3 or none, 
         "tenant in the same shard) in one simple shard or one compound shard built by index.Merge; 8 cases per shard: "
         "context in {system, none, tenant1..4 (tenant4 owns nothing)} x random query of depth <= 2 over {content/file substring, RepoSet, "
         "RepoIDs, Repo, RepoRegexp, Meta, BranchesRepos, Const, And, Or, Not} x Search options x List field; 7/8 strict, 1/8 "
-        "non-strict. sharded level (package search): 2-6 repositories over simple (possibly split) and compound shards loaded into "
+        "non-strict. sharded level (package search): 2-6 repositories (names unique per tenant only, as above; same-named repositories carry the "
+        "same URL templates there) over simple (possibly split) and compound shards loaded into "
         "the real shardedSearcher wrapped by typeRepoSearcher; queries incl. type:repo; Search aggregate and List (names, ReposMap ids, Stats.Documents) compared with the model, "
         "StreamSearch events checked by the oracle. non-trivial = the shard(s) hold a repository the caller may not see "
         "and the search reaches the document loop / returns files.")
